@@ -33,6 +33,7 @@ ANSWER_TIMEOUT_S = 8.0   # requests the child is expected to answer
 SILENT_TIMEOUT_S = 0.4   # requests nobody will answer
 SCENARIO_TIMEOUT_S = 40.0
 FLOOD_SOAK_S = 0.4
+EOF_SOAK_S = 0.25
 
 BEHAVIOURS = ["well", "exit_at", "ignore_term", "never_reads", "stops_reading", "flood", "close_stdout", "close_stdin",
               "slow_start"]
@@ -76,9 +77,20 @@ if kind == "close_stdin":
     os.close(0)
     while True:
         time.sleep(3600)
-if kind == "close_stdout":
+linger = spec.get("linger", "eof")              # close_stdout: what it does after hanging up its stdout
+close_after = spec.get("close_after", 0)       # ... and after how many answers it does so
+answered = 0
+def hang_up():
     sys.stdout.buffer.flush()
-    os.close(1)
+    os.close(1)                                # the client sees EOF on our stdout; we stay alive
+    if linger == "stubborn":
+        signal.signal(signal.SIGTERM, signal.SIG_IGN)
+    if linger in ("sleep", "stubborn"):        # does not look at its stdin any more
+        while True:
+            time.sleep(3600)
+if kind == "close_stdout" and close_after == 0:
+    hang_up()
+closed = kind == "close_stdout" and close_after == 0
 while True:
     line = sys.stdin.buffer.readline()
     if not line:
@@ -91,15 +103,19 @@ while True:
         continue
     step += 1                                  # odd step: a request has been read
     maybe_exit()
-    if m["method"] == "hold" or kind == "close_stdout":
+    if m["method"] == "hold" or closed:
         continue                               # never answered
     out({"jsonrpc": "2.0", "id": m["id"], "result": {"echo": (m.get("params") or {}).get("x")}})
     step += 1                                  # even step: it has been answered
     maybe_exit()
+    answered += 1
+    if kind == "close_stdout" and answered == close_after:
+        closed = True
+        hang_up()
     if kind == "stops_reading":                # one answer, then it never touches its stdin again
         while True:
             time.sleep(3600)
-if kind == "ignore_term":                      # stubborn: stdin EOF does not end it either
+if kind == "ignore_term" or (kind == "close_stdout" and linger == "reads"):   # stdin EOF does not end it either
     while True:
         time.sleep(3600)
 '''
@@ -114,6 +130,8 @@ def answers(case, j):
         return case.get("k", 0) >= 2 * j
     if b == "stops_reading":
         return j == 1
+    if b == "close_stdout":
+        return j <= case.get("close_after", 0)
     return False
 
 
@@ -195,7 +213,7 @@ async def _scenario(case, tmp, obs):
     me = os.getpid()
     script = os.path.join(tmp, "child.py")
     spec = {"kind": case["behaviour"]}
-    for key in ("k", "code", "junk", "delay"):
+    for key in ("k", "code", "junk", "delay", "linger", "close_after"):
         if key in case:
             spec[key] = case[key]
     params = StdioParameters(command=sys.executable, args=["-S", "-E", script, json.dumps(spec)])
@@ -212,6 +230,9 @@ async def _scenario(case, tmp, obs):
     path, moment = case["path"], case["moment"]
     reqs = obs["requests"]
 
+    nsess = case.get("sessions", 1)
+    shared = {}     # sessions > 1: the SAME StdioClient / StdioTransport object is entered again and again
+
     @contextlib.asynccontextmanager
     async def client():
         if api == "stdio_client":
@@ -220,11 +241,17 @@ async def _scenario(case, tmp, obs):
                 yield r, w
         elif api == "StdioTransport":
             from chuk_mcp.transports.stdio.transport import StdioTransport
-            async with StdioTransport(params) as t:
+            t = shared.get("obj") or StdioTransport(params)
+            if nsess > 1:
+                shared["obj"] = t
+            async with t:
                 yield await t.get_streams()
         else:
             from chuk_mcp.transports.stdio.stdio_client import StdioClient
-            async with StdioClient(params) as c:
+            c = shared.get("obj") or StdioClient(params)
+            if nsess > 1:
+                shared["obj"] = c
+            async with c:
                 yield c.get_streams()
 
     async def echo(r, w, j):
@@ -268,9 +295,13 @@ async def _scenario(case, tmp, obs):
             await anyio.sleep(0.3)             # let the child be gone before the conversation starts
         if case["behaviour"] == "flood":
             await anyio.sleep(FLOOD_SOAK_S)    # let the flood fill every buffer between the child and us
+        if case["behaviour"] == "close_stdout" and case.get("close_after", 0) == 0:
+            await anyio.sleep(EOF_SOAK_S)      # let the client see the EOF on the child's stdout
         if moment == "after":
             for j in range(1, case.get("nreq", 1) + 1):
                 await echo(r, w, j)
+            if case["behaviour"] == "close_stdout" and case.get("close_after", 0) > 0:
+                await anyio.sleep(EOF_SOAK_S)
         if moment == "inflight":
             if path in ("normal", "exception"):
                 await w.send(JSONRPCMessage(jsonrpc="2.0", id="held", method="hold", params={}))
@@ -372,32 +403,65 @@ async def _scenario(case, tmp, obs):
                 scope.cancel()
                 return
 
-    async with anyio.create_task_group() as outer:
-        with anyio.CancelScope() as run_scope:
-            outer.start_soon(watchdog, run_scope)
-            await run_path()
-        outer.cancel_scope.cancel()
-    t_end = time.monotonic()
-    if clock["exit"] is not None:
-        obs["duration_ms"] = max(0, int((t_end - clock["exit"]) * 1000))
+    worst = None
+    for si in range(nsess):
+        clock["exit"] = None
+        obs["entered"] = False
+        ses = {"hang": False}
+        hang0 = obs["hang"]
+        obs["hang"] = False
+        async def session_task():
+            async with anyio.create_task_group() as outer:
+                with anyio.CancelScope() as run_scope:
+                    outer.start_soon(watchdog, run_scope)
+                    await run_path()
+                outer.cancel_scope.cancel()
 
-    # settling window: the loop keeps running so that it can collect what it is going to collect
-    t0 = time.monotonic()
-    first = True
-    while True:
-        running, z = scan(tmp, me)
-        newz = [p_ for p_ in z if p_ not in z0]
-        fds = nfds()
-        state = "running" if running else ("zombie" if newz else "gone")
-        if first:
-            obs["state_at_return"] = state
-            obs["fd_delta_at_return"] = fds - fd0
-            first = False
-        if (state == "gone" and fds <= fd0) or time.monotonic() - t0 > SETTLE_S:
+        # the session runs in a task of its own: a client that leaves one of ITS cancel scopes open (an exit
+        # that was skipped) corrupts the scope stack of that task only, and we can still look at the result
+        try:
+            async with anyio.create_task_group() as iso:
+                iso.start_soon(session_task)
+        except BaseException as ex:  # noqa: BLE001
+            ses["session_exc"] = type(ex).__name__
+        t_end = time.monotonic()
+        ses["hang"] = obs["hang"]
+        obs["hang"] = obs["hang"] or hang0
+        ses["entered"] = obs["entered"]
+        ses["duration_ms"] = None if clock["exit"] is None else max(0, int((t_end - clock["exit"]) * 1000))
+
+        # settling window: the loop keeps running so that it can collect what it is going to collect
+        t0 = time.monotonic()
+        first = True
+        while True:
+            running, z = scan(tmp, me)
+            newz = [p_ for p_ in z if p_ not in z0]
+            fds = nfds()
+            state = "running" if running else ("zombie" if newz else "gone")
+            if first:
+                ses["state_at_return"] = state
+                ses["fd_delta_at_return"] = fds - fd0
+                first = False
+            if (state == "gone" and fds <= fd0) or time.monotonic() - t0 > SETTLE_S:
+                break
+            await anyio.sleep(0.02)
+        ses["state"] = state
+        ses["fd_delta"] = fds - fd0
+        if nsess > 1:
+            obs.setdefault("sessions", []).append(ses)
+        bad = ses["hang"] or state != "gone" or fds > fd0 or (ses["duration_ms"] or 0) > GRACE_MS + SLACK_MS
+        if worst is None or (bad and not worst[1]):
+            worst = (dict(ses, session=si + 1), bad)
+        if bad:
+            break                              # what follows would only inherit the mess
+        if not ses["entered"]:
             break
-        await anyio.sleep(0.02)
-    obs["state"] = state
-    obs["fd_delta"] = fds - fd0
+    ses = worst[0]
+    obs["entered"] = ses["entered"]
+    for key in ("duration_ms", "state", "fd_delta", "state_at_return", "fd_delta_at_return"):
+        obs[key] = ses[key]
+    if nsess > 1:
+        obs["session"] = ses["session"]        # the session the top-level observation belongs to
 
 
 def run_case(case):
